@@ -176,6 +176,7 @@ type outcome struct {
 	text string // strings / booleans / diff fingerprints
 	err  bool
 	pan  string
+	val  any // the value returned, when it is a diff or a document
 }
 
 func (o outcome) String() string {
@@ -218,10 +219,10 @@ func execCall(c Call, cs C15Case, a, b jd.JsonNode, diffs []jd.Diff) (outcome, j
 		switch c.Op {
 		case "Diff":
 			produced = a.Diff(b, opts...)
-			return outcome{text: fingerprint(produced)}
+			return outcome{text: fingerprint(produced), val: produced}
 		case "DiffBA":
 			produced = b.Diff(a, opts...)
-			return outcome{text: fingerprint(produced)}
+			return outcome{text: fingerprint(produced), val: produced}
 		case "Equals":
 			return outcome{text: fmt.Sprint(a.Equals(b, opts...))}
 		case "Json":
@@ -254,7 +255,7 @@ func execCall(c Call, cs C15Case, a, b jd.JsonNode, diffs []jd.Diff) (outcome, j
 			}
 			x, err := readText(cs.Texts[c.T])
 			produced = x
-			return outcome{text: fingerprint(x), err: err != nil}
+			return outcome{text: fingerprint(x), err: err != nil, val: x}
 		case "ReadDoc":
 			text := cs.A
 			if c.N == 1 {
@@ -264,7 +265,7 @@ func execCall(c Call, cs C15Case, a, b jd.JsonNode, diffs []jd.Diff) (outcome, j
 			if err != nil {
 				return outcome{err: true}
 			}
-			return outcome{text: fingerprint(x)}
+			return outcome{text: fingerprint(x), val: x}
 		}
 		return outcome{text: "?"}
 	})
@@ -473,6 +474,13 @@ func checkC15(c C15Case) (*Violation, []string, *caseInfo) {
 				}
 			}
 		}
+		if got.pan == "" && want.pan == "" && !got.err && !want.err && got.text != want.text && got.val != nil && want.val != nil && observe(got.val) == observe(want.val) {
+			// the two results differ in representation only (a cache filled
+			// in one and not in the other, say): every public observer gives
+			// the same answers, which is all the property speaks about
+			stats.probe("results-differ-in-representation-only")
+			got.text = want.text
+		}
 		if got.pan != want.pan || got.err != want.err || (!got.err && got.text != want.text) {
 			target := "-"
 			if call.D < len(w.diffs) && strings.Contains(call.Op, "Render") {
@@ -593,6 +601,14 @@ func showStr(s string) string {
 func (w *world) checkUnchanged(after string) *Violation {
 	for _, s := range append(append([]*shared(nil), w.nodes...), w.diffs...) {
 		now := fingerprint(s.live)
+		if now != s.print && observe(s.live) == observe(s.pristine) {
+			// representation changed, observable value did not (lazily filled
+			// cache): accept the new representation as the baseline
+			stats.probe("shared-value-changed-in-representation-only")
+			s.print = now
+			s.pristine = deepCopyAny(s.live)
+			continue
+		}
 		if now != s.print {
 			return viol15("no-mutation", whereOfMutation(after), "%s changed the shared value %s: it was %s and is now %s.", after, s.name, showStr(diffPrints(s.print, now)), showStr(diffPrints(now, s.print)))
 		}
@@ -944,4 +960,49 @@ func shrink15(raw json.RawMessage) []json.RawMessage {
 		}
 	}
 	return out
+}
+
+// observe lists everything the public API lets a caller see of a diff or a
+// document: each observer runs on its own deep copy, under canonical map order.
+func observe(x any) string {
+	var b strings.Builder
+	add := func(name string, f func(c any) string) {
+		c := deepCopyAny(x)
+		o := guardCall(func() outcome { return outcome{text: f(c)} })
+		b.WriteString(name + "=" + o.String() + "\n")
+	}
+	switch x.(type) {
+	case jd.Diff:
+		add("Render", func(c any) string { return c.(jd.Diff).Render() })
+		add("RenderColor", func(c any) string { return c.(jd.Diff).Render(jd.COLOR) })
+		add("RenderPatch", func(c any) string {
+			s, err := c.(jd.Diff).RenderPatch()
+			return fmt.Sprint(s, err != nil)
+		})
+		add("RenderMerge", func(c any) string {
+			s, err := c.(jd.Diff).RenderMerge()
+			return fmt.Sprint(s, err != nil)
+		})
+		add("shape", func(c any) string {
+			var sb strings.Builder
+			for _, e := range c.(jd.Diff) {
+				fmt.Fprintf(&sb, "%v|%d|%d|%d|%d|%s;", e.Metadata.Merge, len(e.Before), len(e.Remove), len(e.Add), len(e.After), e.Path.JsonNode().Json())
+				for _, l := range [][]jd.JsonNode{e.Before, e.Remove, e.Add, e.After} {
+					for _, n := range l {
+						fmt.Fprintf(&sb, "%T:%s,", n, n.Json())
+					}
+				}
+			}
+			return sb.String()
+		})
+	case jd.JsonNode:
+		add("Json", func(c any) string { return c.(jd.JsonNode).Json() })
+		add("Yaml", func(c any) string { return c.(jd.JsonNode).Yaml() })
+		add("JsonSet", func(c any) string { return c.(jd.JsonNode).Json(jd.SET) })
+		add("JsonMultiset", func(c any) string { return c.(jd.JsonNode).Json(jd.MULTISET) })
+		add("type", func(c any) string { return fmt.Sprintf("%T", c) })
+	default:
+		return fingerprint(x)
+	}
+	return b.String()
 }
